@@ -609,6 +609,15 @@ class Normalizer:
         except Exception:
             return None
         g = c.func
+        if c.kind == "method_unknown" and isinstance(call.func, ast.Attribute):
+            # receiver of unknown type: a method name that only one (new) helper method in the package carries
+            cands = [h for h in self.helpers.values() if h.kind == "method" and h.name == call.func.attr]
+            others = [x for x in self.prog.functions.values() if x.name == call.func.attr and x.qualname not in self.helpers]
+            if len(cands) == 1 and not others and call.func.attr.startswith("_"):
+                g = cands[0]
+                call._sa_method = g
+                return g if g.qualname not in self._active and g.qualname != f.qualname else None
+            return None
         if g is None or c.kind not in ("internal", "method_internal"):
             return None
         if g.qualname not in self.helpers or g.qualname in self._active or g.qualname == f.qualname:
@@ -670,8 +679,8 @@ class Normalizer:
         recv = None
         c = self.res.callee(f, call)
         pnames = [p.arg for p in params]
-        if c.kind == "method_internal" and g.kind == "method":
-            recv = c.receiver
+        if (c.kind == "method_internal" or getattr(call, "_sa_method", None) is g) and g.kind == "method":
+            recv = c.receiver if c.receiver is not None else call.func.value
             bound[pnames[0]] = recv
             pnames_rest = pnames[1:]
         else:
